@@ -93,10 +93,9 @@ fn classify(a: &RVal, b: &RVal) -> &'static str {
             }
         }
     }
+    let _ = negzero; // -0.0 / 0 share a key since the repair in /repo: no longer a format effect
     if image_tie {
         "format:num-f64-image"
-    } else if negzero {
-        "format:neg-zero"
     } else if has_string(a) || has_string(b) {
         "format:str-marker"
     } else {
